@@ -78,6 +78,10 @@ def build(spec, d):
             return bulk(kind, n, tail)
         if '$path' in spec:
             return os.path.join(d, spec['$path'])
+        if '$rep' in spec:
+            return spec['$rep'][0] * spec['$rep'][1]
+        if '$cat' in spec:
+            return ''.join(build(x, d) for x in spec['$cat'])
         if '$pow' in spec:
             b, e, k = spec['$pow']
             return b ** e + k
@@ -150,12 +154,20 @@ class Local(object):
         with self.project.check_changes():
             return [r[:4] for r in _linter.lint(self.project, _nstr(source), filename)]
 
+    def eval(self, source):
+        # server.py:64-69: the text is the body of a function run in a FRESH namespace
+        ns = {}
+        body = '\n'.join('    ' + r for r in _nstr(source).splitlines())
+        exec('def boo():\n{}\nresult = boo()'.format(body), ns)
+        return ns['result']
+
 
 def _sig_configure(config): pass
 def _sig_assist(source, position, filename): pass
 def _sig_location(source, position, filename): pass
 def _sig_lint(source, filename, syntax_only=False): pass
-_SIGS = {'configure': _sig_configure, 'assist': _sig_assist, 'location': _sig_location, 'lint': _sig_lint}
+def _sig_eval(source): pass
+_SIGS = {'configure': _sig_configure, 'assist': _sig_assist, 'location': _sig_location, 'lint': _sig_lint, 'eval': _sig_eval}
 
 listener = Listener(ADDR)
 conn = listener.accept()
@@ -176,7 +188,7 @@ while True:
     except BaseException as e:
         out = ('escape', type(e).__name__, str(e))
     out2 = None
-    if name in _SIGS and (name == 'configure' or hasattr(lib, 'project')):   # "no project yet" is the server's own state
+    if name in _SIGS and (name in ('configure', 'eval') or hasattr(lib, 'project')):   # "no project yet" is the server's own state
         try:
             _SIGS[name](*args, **kwargs)       # only calls that fit the API's signatures
         except TypeError:
@@ -615,7 +627,7 @@ def run_sequence(seq, workdir, timeout):
                     if le != oo:
                         res['mism'].append((idx, 'request %d %s: the in-process API (supp.%s on an identical Project) gives %s, '
                                                  'client observed %s' % (idx, c[0], 'linter.lint' if c[0] == 'lint' else
-                                                                        'project.Project' if c[0] == 'configure' else 'assistant.' + c[0],
+                                                                        'project.Project' if c[0] == 'configure' else 'fresh-namespace exec' if c[0] == 'eval' else 'assistant.' + c[0],
                                                                         short(le), short(oo))))
             if res['timed_out']:
                 break
@@ -803,6 +815,14 @@ EVAL_OK = [
     'return None', 'x = 1', 'return "\\u00e9\\u4e2d\\U0001f600"', 'return True, False, 0, 1', 'return [[]] * 3', 'return ""',
     'return {1: "a", "1": "b", 1.5: (1,)}', 'return [(), [], {}]', 'import os\nreturn os.path.basename(os.getcwd()) == ""',
 ]
+# eval requests that leave something in the namespace they ran in, and evals that would see it if the
+# namespace were shared (each request runs in a fresh one: NameError)
+EVAL_LEAVES = ['global c15_g\nc15_g = 41\nreturn c15_g', 'global c15_h\nc15_h = [1]\nreturn 1/0', 'global c15_k\nimport os as c15_k\nreturn 2',
+               'global c15_f\ndef c15_f():\n    return 3\nreturn c15_f()', 'return 77', 'globals()["c15_d"] = 5\nreturn 5',
+               'global c15_g\nc15_g = 42\nraise ValueError("half way")']
+EVAL_READS = ['return c15_g', 'return c15_h', 'return c15_k.sep', 'return c15_f()', 'return result', 'return c15_d',
+              'return sorted(k for k in globals() if not k.startswith("__"))', 'return boo.__name__']
+EVAL_OK += EVAL_LEAVES[:1] + EVAL_LEAVES[2:6] + EVAL_READS[6:]
 CONFIGURE_OK = [
     [{'sources': [{'$path': ''}]}], [{'sources': [{'$path': ''}, {'$path': 'pkg'}]}],
     [{'sources': [{'$path': ''}], 'dyn_modules': None}], [{'sources': [{'$path': ''}], 'extra': {'$tuple': [1, 2]}}],
@@ -885,6 +905,7 @@ FAIL_RAISES = [
     ['eval', ['raise Exception()'], {}], ['eval', ['raise Exception("multi\\nline \\u00e9")'], {}], ['eval', ['import nosuchmodule_c15'], {}],
     ['eval', ['def r(n):\n    return r(n + 1)\nr(0)'], {}], ['assist', [5, {'$tuple': [1, 0]}, X], {}], ['configure', [None], {}],
 ]
+FAIL_RAISES += [['eval', [src], {}] for src in EVAL_READS[:6] + EVAL_LEAVES[1:2] + EVAL_LEAVES[6:]]
 FAIL_SERIALISE = [
     ['eval', ['return object()'], {}], ['eval', ['return {1, 2}'], {}], ['eval', ['return 2**64'], {}], ['eval', ['return -2**63 - 1'], {}],
     ['eval', ['return "\\udc80"'], {}], ['eval', ['raise Exception("\\udc80")'], {}], ['eval', ['l = []\nl.append(l)\nreturn l'], {}],
@@ -1023,6 +1044,16 @@ def gen_sequences(ctx):
             else:
                 calls.append(g_valid(rng)[0])
         seqs.append({'files': FILES, 'steps': [{'pipe': calls}], 'tag': 'pipeline'})
+    # (j) eval requests that leave names behind, then evals that would see them in a shared namespace
+    for j in range(ctx.pick(6, 40)):
+        steps = [{'call': ['configure', CONFIGURE_OK[0], {}]}]
+        for i in range(rng.randint(3, ctx.pick(8, 20))):
+            x = rng.random()
+            src = rng.choice(EVAL_LEAVES) if x < 0.4 else rng.choice(EVAL_READS) if x < 0.85 else rng.choice(EVAL_OK)
+            steps.append({'call': ['eval', [src], {}]})
+            if rng.random() < 0.2:
+                steps.append({'call': g_valid(rng)[0] if rng.random() < 0.5 else g_failing(rng)[0]})
+        seqs.append({'files': FILES, 'steps': steps, 'tag': 'eval-namespace'})
     # (h) the same request repeated verbatim around re-configures / edits of the modules it depends on
     seqs.extend(repeat_sequences(ctx))
     # (i) default logging (no log file, the server's stdout/stderr as Environment._run sets them up):
@@ -1060,6 +1091,7 @@ def sweep_sequences(ctx):
     seqs = []
     for k in range(0, len(SWEEP_NS), 6):
         seqs.extend(sweep_chunk(ctx, SWEEP_NS[k:k + 6], k == 0))
+    seqs.extend(integer_sweep(ctx))
     if ctx.thorough():
         cfg = {'call': ['configure', CONFIGURE_OK[0], {}]}
         steps = [cfg]
@@ -1069,6 +1101,50 @@ def sweep_sequences(ctx):
                 'return b"x" * %d' % n, 'return {i: None for i in range(%d)}' % n)]
             steps.append({'call': ['lint', ['#' + 'c' * (n - 1), X], {}]})
         seqs.append({'files': FILES, 'steps': steps, 'tag': 'sweep-64K'})
+    return seqs
+
+
+def integer_sweep(ctx):
+    """Integers around every MessagePack integer-format boundary (2^7, 2^8, 2^15, 2^16, 2^31, 2^32, 2^63,
+    2^64, both signs) in eval results and arguments, and lines / columns around 2^15 and 2^16 in request
+    positions and in the positions of location / lint replies (one-line sources of ~32-70 KB, sources of
+    ~32 000-70 000 lines)."""
+    cfg = {'call': ['configure', CONFIGURE_OK[0], {}]}
+    seqs = []
+    ints = sorted(set(sg * (2 ** k) + d for k in (5, 7, 8, 15, 16, 31, 32, 63, 64) for d in (-2, -1, 0, 1, 2) for sg in (1, -1)))
+    ok = [z for z in ints if -2 ** 63 <= z < 2 ** 64]
+    steps = [cfg, {'call': ['eval', ['return %r' % ok], {}]}, {'call': ['eval', ['return {z: z // 3 for z in %r}' % ok], {}]},
+             {'call': ['eval', ['return 40000 + 2'], {}]}, {'call': ['eval', ['return [2**15, 2**16 - 1, -2**15 - 1, 2**31, 2**32 - 1, -2**31 - 1]'], {}]}]
+    for z in ok:
+        steps.append({'call': ['eval', ['return %d' % z], {}]})
+    for z in ints:
+        if z not in ok:
+            steps.append({'call': ['eval', ['return %d' % z], {}]})          # Serialize error
+    # integers as request arguments: the server's message names them
+    steps.append({'call': ['eval', ['return 1'] + ok[::7], {}]})
+    for z in (32767, 32768, 40002, 65535, 65536, 2 ** 31, 2 ** 32):
+        steps.append({'call': ['assist', ['x = 1\nx', {'$tuple': [z, 0]}, X], {}]})        # IndexError / same in-process
+        steps.append({'call': ['lint', ['x\n', X, z], {}]})
+    seqs.append({'files': FILES, 'steps': steps, 'tag': 'sweep-integers'})
+    steps = [cfg]
+
+    def padded(prefix, ch, n, suffix):
+        return {'$cat': [prefix, {'$rep': [ch, n]}, suffix]}
+    for n in ctx.pick((32766, 32768, 40000, 65536), (32766, 32767, 32768, 32769, 40000, 65534, 65535, 65536, 65537, 70000)):
+        # column n in the request position (assist at the end of the line) ...
+        pre, suf = 'import mod1; s = "', '"; mod1.f'
+        k = n - len(pre) - len(suf)
+        steps.append({'call': ['assist', [padded(pre, 'a', k, suf), {'$tuple': [1, n]}, X], {}]})
+        # ... and in the reply: a name bound at column n, a diagnostic at column n
+        pre, suf = 's = "', '"; tgt = 1; tgt'
+        k = n - len(pre) - 3
+        steps.append({'call': ['location', [padded(pre, 'a', k, suf), {'$tuple': [1, len(pre) + k + len(suf) - 1]}, X], {}]})
+        steps.append({'call': ['lint', [padded(pre, 'a', k, '"; undefined_q'), X], {}]})
+        # line n in the request position and in the replies
+        steps.append({'call': ['assist', [padded('', '\n', n - 3, 'tgt = 1\nimport mod1\nmod1.f'), {'$tuple': [n, 6]}, X], {}]})
+        steps.append({'call': ['location', [padded('', '\n', n - 1, 'tgt = 1\ntgt'), {'$tuple': [n + 1, 1]}, X], {}]})
+        steps.append({'call': ['lint', [padded('', '\n', n - 1, 'undefined_q\n'), X], {}]})
+    seqs.append({'files': FILES, 'steps': steps, 'tag': 'sweep-positions'})
     return seqs
 
 
@@ -1310,6 +1386,20 @@ def collect_lengths(t, name, acc):
         acc.setdefault(name + ':bin', set()).add(len(t[1]))
 
 
+def collect_ints(t, name, acc):
+    """integers >= 32767 met in a reply (coverage of positions beyond int16)"""
+    k = t[0]
+    if k == 'i' and t[1] >= 32767:
+        acc.setdefault(name, set()).add(t[1])
+    elif k in 'LT':
+        for x in t[1]:
+            collect_ints(x, name, acc)
+    elif k == 'D':
+        for a, b in t[1]:
+            collect_ints(a, name, acc)
+            collect_ints(b, name, acc)
+
+
 def summarise(ints):
     """sorted ints as ranges: [0,1,2,5] -> '0-2,5'"""
     out = []
@@ -1412,6 +1502,24 @@ def seq_mode(seq):
     return 'sync'
 
 
+def in_stated_domain(seq, res, idx):
+    """The property quantifies over request sequences SENT THROUGH THE CLIENT over configure / assist /
+    location / lint / eval with valid and failing arguments. Outside it (evaluated as an extension,
+    covered by C15_refines_reference / C15_any_interleaving): requests written to the connection
+    directly (pipelined, interleaved), and everything from a `close` message or a request that raises
+    a BaseException (SystemExit, KeyboardInterrupt) onwards."""
+    if seq_mode(seq) != 'sync':
+        return False
+    return not any(failure_kind(c) == 'fatal' for c in res['calls'][:idx + 1])
+
+
+def report(ctx, seq, res, idx, what, replay):
+    if in_stated_domain(seq, res, idx):
+        ctx.violation(what, replay)
+    else:
+        ctx.extension_failure(what, replay)
+
+
 def failure_kind(c):
     for kind, pool in FAIL_KINDS + [('fatal', FATAL)]:
         if c in pool:
@@ -1470,6 +1578,7 @@ def _run(ctx):
     sync_terms, sync_idx, pipe_terms, pipe_idx, sched_terms, sched_idx = [], [], [], [], [], []
     nviol = 0
     sweep_lengths = {}
+    position_ints = {}
     maxsize = 0
     slowest = 0.0
     for i, (seq, res) in enumerate(zip(seqs, results)):
@@ -1498,6 +1607,8 @@ def _run(ctx):
                 ctx.histogram('reply_string_bytes', '0-255' if rl < 256 else '256-64K' if rl < 65536 else '64K-1M' if rl < 2 ** 20 else '>=1MiB')
             if seq['tag'].startswith('sweep') and ob[0] == 'returned':
                 collect_lengths(ob[1], c[0], sweep_lengths)
+                if seq['tag'] == 'sweep-positions':
+                    collect_ints(ob[1], c[0], position_ints)
             if res['times'][j] >= 1.5:
                 ctx.histogram('slow_request_seconds', int(res['times'][j]))
             sz = res['sizes'][j]
@@ -1519,8 +1630,8 @@ def _run(ctx):
                 continue
             nviol += 1
             if nviol <= 10:
-                ctx.violation('sequence %d (%s): %s' % (i, seq['tag'], what),
-                              {'kind': 'direct', 'sequence': strip(seq), 'index': idx, 'what': what})
+                report(ctx, seq, res, idx, 'sequence %d (%s): %s' % (i, seq['tag'], what),
+                       {'kind': 'direct', 'sequence': strip(seq), 'index': idx, 'what': what})
         if res.get('skip_model'):
             continue
         wd = os.path.join(ctx.scratch, 'seq%d' % i)
@@ -1542,6 +1653,7 @@ def _run(ctx):
             sync_idx.append(i)
     cov['library_level_comparisons'] = sum(r.get('lib_compared', 0) for r in results)
     cov['isolation_disagreements'] = check_isolation(ctx, seqs, results)
+    cov['reply_positions_ge_32767'] = {k: summarise(v) for k, v in sorted(position_ints.items())}
     cov['sweep_reply_lengths'] = {k: summarise(v) for k, v in sorted(sweep_lengths.items())}
     cov['max_request_bytes'] = maxsize
     cov['slowest_call_s'] = round(slowest, 2)
